@@ -124,9 +124,14 @@ func (b *Broadcaster[T]) Broadcast(value T) {
 // the subscribers. The Broadcaster will be a no-op after this call.
 func (b *Broadcaster[T]) Close() {
 	defer b.wg.Wait()
-	b.lock.Lock()
+	// Mark the Broadcaster closed and close closeCh before taking the lock: a
+	// Broadcast blocked on a full subscriber buffer holds the lock and is only
+	// released by closeCh.
 	if b.closed.CompareAndSwap(false, true) {
 		close(b.closeCh)
 	}
-	b.lock.Unlock()
+	// Pass through the lock so that any Subscribe which saw the Broadcaster
+	// still open has registered its forwarder before we wait for them.
+	b.lock.Lock()
+	b.lock.Unlock() //nolint:staticcheck
 }
